@@ -175,6 +175,7 @@ def decide(spec, group, tier, seed, replay=None):
     impl_out, model_out = {}, {}
     shrunk_from = {}
     order_fails = []
+    ndebug_fails = []
     corr_breaks, orc_fails, known_hits = [], [], []
     harness_note = None
     with core.Scratch() as scr:
@@ -261,6 +262,25 @@ def decide(spec, group, tier, seed, replay=None):
                         if len(order_fails) >= 3: break
                 notes.append('order pass: %d lines re-run in another order in %.1fs, %d order-dependent' % (len(lines2), t_order, len(order_fails)))
 
+            # ---- 2c. independence of the caller's NDEBUG ----------------------------------------------
+            # the templates live in headers and are compiled with the caller's flags: a caller that defines NDEBUG gets the same
+            # answers (an assert whose expression has a side effect would not)
+            if not replay and not spec.get('no_ndebug_check'):
+                exe_nd, err_nd, t_nd = core.build_harness(scr, group['name'], group['sources'], group.get('repo_sources', ()),
+                                                          tuple(group.get('flags', ())) + ('-DNDEBUG',), group.get('libs', ('-lgmpxx', '-lgmp')))
+                if exe_nd is None:
+                    broken.append('harness %s does not compile with -DNDEBUG: %s' % (group['name'], (err_nd or '')[-600:]))
+                else:
+                    t0 = time.time(); iout_nd = core.run_lines([exe_nd], lines); icanon = spec.get('impl_canon')
+                    for i, l in enumerate(lines):
+                        o2 = iout_nd[i] if i < len(iout_nd) else 'err no-output'
+                        if icanon: o2 = icanon(o2, l)
+                        if canon(o2) != canon(impl_out.get(i, '')) and not known_match(known, pid, l):
+                            ndebug_fails.append({'line': l, 'assertions_enabled': impl_out.get(i, ''), 'NDEBUG': o2})
+                            orc_fails.append((i, 'the answer depends on whether the caller defines NDEBUG: with assertions %s, with -DNDEBUG %s' % (impl_out.get(i, '')[:120], o2[:120])))
+                            if len(ndebug_fails) >= 3: break
+                    notes.append('NDEBUG pass: %d lines re-run on a harness built with -DNDEBUG in %.1fs (build %.1fs), %d differ' % (len(lines), time.time() - t0, t_nd, len(ndebug_fails)))
+
             # ---- 3. search when something no longer checks -------------------------------------
             if (broken or corr_breaks) and not orc_fails and not replay:
                 log('%s: obligation/correspondence broken; searching for a failing input' % pid)
@@ -301,6 +321,18 @@ def decide(spec, group, tier, seed, replay=None):
                     notes.append('shrink failed: %r' % e)
 
     # ---- replay of recorded order dependences ---------------------------------------------------
+    if replay and rj.get('ndebug_dependence'):
+        with core.Scratch() as scr:
+            e1, _, _ = core.build_harness(scr, group['name'], group['sources'], group.get('repo_sources', ()), group.get('flags', ()), group.get('libs', ('-lgmpxx', '-lgmp')))
+            e2, _, _ = core.build_harness(scr, group['name'], group['sources'], group.get('repo_sources', ()), tuple(group.get('flags', ())) + ('-DNDEBUG',), group.get('libs', ('-lgmpxx', '-lgmp')))
+            if e1 and e2:
+                nl = [x['line'] for x in rj['ndebug_dependence']]; icanon = spec.get('impl_canon')
+                o1, o2 = core.run_lines([e1], nl), core.run_lines([e2], nl)
+                for l, a, b in zip(nl, o1, o2):
+                    if icanon: a, b = icanon(a, l), icanon(b, l)
+                    if canon(a) != canon(b):
+                        cases.append(Case(l, 'orc', 'ndebug')); impl_out[len(cases) - 1] = b
+                        orc_fails.append((len(cases) - 1, 'the answer depends on whether the caller defines NDEBUG: %s vs %s' % (a[:120], b[:120])))
     if replay:
         for od in rj.get('order_dependence', []):
             if 'extra' not in od: continue
@@ -383,6 +415,7 @@ def decide(spec, group, tier, seed, replay=None):
                                             (module, group['name'], len(corr_breaks), len([c for c in cases if c.kind == 'cmp']))] if corr_breaks else []),
             'shrunk_from': shrunk_from,
             'order_dependence': order_fails,
+            'ndebug_dependence': ndebug_fails,
             'replay_cmd': './check %s --replay %s' % (pid, replay_path),
         }
         json.dump(rj, open(replay_path, 'w'), indent=1)
